@@ -8,6 +8,13 @@ open Finset BigOperators Function
 
 variable {K : Type} [CommRing K]
 
+omit [CommRing K] in
+/-- with the wiring of `apply_site_gate` read from the source, a single-site gate applies its
+    matrix (not the transpose) -/
+theorem siteGateTable_eq (M : ℕ → ℕ → K) : siteGateTable M = M := by
+  have h : siteGateActs = true := by decide
+  simp [siteGateTable, h]
+
 /-! ### updates of configurations -/
 
 theorem update_update_same (c : Config) (s a b : ℕ) : update (update c s a) s b = update c s b :=
